@@ -66,6 +66,8 @@ def gen_emit_case(rng):
         argv = [a for a in base_argv] + [t for g in fs.groups for t in g]
         if rng.random() < 0.5 and "--source" in argv and argv[argv.index("--source") + 1] == "none":
             argv += ["--bumped-branch", objgen.rand_text(rng, False).replace("\x00", "")]
+        if rng.random() < 0.25:
+            argv += [rng.choice(["--epoch=0", "--post=0", "--dev=0", "--pre-release-num=0", "--bump-epoch=0", "--distance=0"])]
         if rng.random() < 0.5:
             argv += ["--custom", __import__("json").dumps(objgen.rand_custom(rng, False))]
         return argv, stdin
